@@ -6,6 +6,8 @@ CLAIMED = {
  'C10': dict(text='Coq theorems (unbounded in dimensions, sizes, labels): coordinate-wise specification of transpose/swapaxes/rollaxis/newaxis/squeeze/repeat/broadcast over the tabulate/get array model, with laws (transpose inverse, swapaxes involution, squeeze-newaxis); hand-written model tied to the code by a differential correspondence check (Coq vm_compute vs implementation) and a label-coordinate oracle.',
              note='Model of reshape.py written by hand (Model/Reshape.v); NumPy transpose/repeat/squeeze/newaxis by specification; correspondence is sampled.', tech='Coq proof over tabulate/get array model + vm_compute correspondence', ref='3.10'),
 }
+CLAIMED['C02'] = dict(text='Coq theorems over the GENERATED locate_slice (re-translated from indexing.py on every run): unbounded bridge + bounding-box theorem for increasing axes and positive steps (bounds = searchsorted counts, which delimit exactly the labels in [lo,hi]); Python slice positions; plus kernel-checked finite sweeps (vm_compute, bounds stated in the theorem) of generated code = declarative specification over the quantifier\'s whole monotonic grid (both directions, lengths 0-5, steps None,1,2,3,-1,-2) and over all str / non-monotonic axes of length <= 4 (strict rule).',
+             note='Negative steps, decreasing axes and the strict rule are proved on the finite grid only (stated in the theorems); np.searchsorted modelled by its contract on sorted input; locate_one hand-modelled.', tech='py2coq translation of locate_slice + Coq bridge/bounding-box proofs + vm_compute sweeps', ref='3.2')
 NOT_YET = {}
 ALL = ['C%02d' % i for i in range(1, 21)]
 def main():
